@@ -93,7 +93,7 @@ def check_spec(label, spec):
 
 def work(task):
     tier, lo, hi, _ = task
-    cases = ircases.all_cases(tier, double=False)
+    cases = ircases.reader_cases(tier)
     bad = []
     n = 0
     for label, spec in cases[lo:hi]:
@@ -116,7 +116,7 @@ def child_main(argv):
     backend = api_implementation.Type()
     import random
 
-    cases = ircases.all_cases(tier, double=False)
+    cases = ircases.reader_cases(tier)
     tasks = [(tier, lo, hi, None) for lo, hi in ircases.chunks(len(cases), 20)]
     random.Random(seed).shuffle(tasks)
     n = 0
@@ -196,7 +196,7 @@ def run(ctx):
 
 def replay(doc):
     tier = doc.get("tier", "quick")
-    for label, spec in ircases.all_cases(tier, double=False):
+    for label, spec in ircases.reader_cases(tier):
         if label == doc["case"]:
             v = check_spec(label, spec)
             for s, d in v:
